@@ -33,6 +33,7 @@ SIG_REPACK = 'C07:fs-repack-same-time-removes-more'
 SIG_MAP_KEYERROR = 'C07:mapping-gc-keyerror-leaves-partial-state'
 SIG_DEMO_ATTR = 'C07:demo-pack-attributeerror'
 SIG_REFUSED_BACKPTR = 'C07:pack-refused-backpointer-to-removed'
+SIG_FIRST_DUP = 'C07:fs-pack-copier-backpointer-to-first-duplicate'
 
 EPOCH = 1577836800        # 2020-01-01 00:00:00 UTC; model time m <-> EPOCH + 15*m seconds
 STEP = 15                 # multiples of 15 s are exactly representable in a TimeStamp
@@ -176,8 +177,22 @@ def gen_history(rng, ntx):
                         todo.append(x)                   # create what is referenced for the first time
             for o, _, _ in recs:
                 created.add(o)
+            if rng.random() < 0.15:
+                # the same oid stored twice in one transaction (the last record wins)
+                o, refs, weak = rng.choice(recs)
+                dup = [o, [rng.choice(pool) for _ in range(rng.choice([0, 1, 2]))], []]
+                for x in dup[1]:
+                    if x not in created:
+                        recs.append([x, [], []])
+                        created.add(x)
+                recs.append(dup) if rng.random() < 0.7 else recs.insert(0, dup)
             ops.append(dict(m=m, op='store', recs=recs))
             stores.append(m)
+        elif r < 0.86 and len(allm) >= 2 and rng.random() < 0.25:
+            # several undo() calls in ONE transaction (DB.undoMultiple): may leave two records of one oid
+            k = rng.choice([2, 2, 3])
+            cand = allm[-k:][::-1] if rng.random() < 0.7 else rng.sample(allm, min(k, len(allm)))
+            ops.append(dict(m=m, op='undo', target=cand[0], targets=cand))
         elif r < 0.86:
             # undo: mostly recent transactions, sometimes old ones or earlier undos
             x = rng.random()
@@ -237,14 +252,16 @@ def apply_ops(st, kind, ops, truth, serial=None):
         written = []
         try:
             if op['op'] == 'store':
-                for o, refs, weak in op['recs']:
-                    data = mkpickle(op['m'] * 100 + o, refs, weak)
+                for j, (o, refs, weak) in enumerate(op['recs']):
+                    dupidx = sum(1 for x in op['recs'][:j] if x[0] == o)
+                    data = mkpickle(op['m'] * 100 + o + 10 * dupidx, refs, weak)
                     truth[data] = list(refs)
                     st.store(Z['p64'](o), serial.get(o, Z['z64']), data, '', t)
                     written.append(o)
             elif op['op'] == 'undo':
-                _, oids = st.undo(base64.encodebytes(real_tid(op['target'])).rstrip(), t)
-                written += [Z['u64'](o) for o in oids]
+                for tg in (op.get('targets') or [op['target']]):
+                    _, oids = st.undo(base64.encodebytes(real_tid(tg)).rstrip(), t)
+                    written += [Z['u64'](o) for o in oids]
             else:
                 for o in op['oids']:
                     (st if hasattr(st, 'deleteObject') else st.changes).deleteObject(
@@ -309,7 +326,25 @@ def observe(st, oids, bounds):
     return obs
 
 
-def do_pack(st, T, gc):
+def do_pack(st, T, gc, tz=None):
+    """pack to model time T; `tz`: POSIX TZ string in force during the call (the pack time is a UTC
+    time stamp: the local zone must not matter)"""
+    old = os.environ.get('TZ')
+    if tz:
+        os.environ['TZ'] = tz
+        time.tzset()
+    try:
+        return _do_pack(st, T, gc)
+    finally:
+        if tz:
+            if old is None:
+                os.environ.pop('TZ', None)
+            else:
+                os.environ['TZ'] = old
+            time.tzset()
+
+
+def _do_pack(st, T, gc):
     try:
         st.pack(real_time(T), Z['referencesf'], gc=bool(gc))
         return 'done'
@@ -368,7 +403,7 @@ def rec_set(lst):
 
 def post_listing(lst, T):
     return [(t['m'], t['status'], t['user'], t['desc'], t['ext'],
-             sorted((o, d) for o, d, _ in t['recs'])) for t in lst if t['m'] > T]
+             sorted(((o, d) for o, d, _ in t['recs']), key=lambda x: x[0])) for t in lst if t['m'] > T]
 
 
 def full_listing(lst):
@@ -397,6 +432,18 @@ def judge_pack(before, after, T, gc, kind, outcome, truth, bounds, counts):
     def known_sig(o):                        # the recorded FileStorage defect, exactly
         return fslike and gc and o not in reachT and H.written_after(o, T)
 
+    # oids with a record after T whose back pointer targets a transaction (also after T) that holds
+    # two records of that oid: PackCopier._data_find re-points it at the FIRST of them
+    multi = {(t['m'], o) for t in before['listing'] for o in {x[0] for x in t['recs']}
+             if sum(1 for x in t['recs'] if x[0] == o) > 1}
+    firstdup = {o for t in before['listing'] if t['m'] > T for o, _, bk in t['recs']
+                if bk is not None and bk > T and (bk, o) in multi} if fslike else set()
+
+    def load_sig(o):
+        if known_sig(o):
+            return SIG_GARBAGE_WRITTEN
+        return SIG_FIRST_DUP if o in firstdup else 'C07:load-changed'
+
     # sentence 2a: every object reachable in a snapshot b > T loads identically
     for b in bounds:
         if b <= T:
@@ -408,14 +455,14 @@ def judge_pack(before, after, T, gc, kind, outcome, truth, bounds, counts):
             if removable_object(o):
                 counts['excused:resurrected-object-of-R'] = counts.get('excused:resurrected-object-of-R', 0) + 1
                 continue
-            bad.append((SIG_GARBAGE_WRITTEN if known_sig(o) else 'C07:load-changed',
+            bad.append((load_sig(o),
                         'loadBefore(oid %d, b=%d) after pack(T=%d, gc=%d) on %s: %r, was %r'
                         % (o, b, T, gc, kind, short(y), short(x))))
     last = max(bounds)
     for o in sorted(H.live_reach(last)):
         for name, x, y in (('load', before['cur'][o], after['cur'][o]),):
             if x != y and not removable_object(o):
-                bad.append((SIG_GARBAGE_WRITTEN if known_sig(o) else 'C07:load-changed',
+                bad.append((load_sig(o),
                             '%s(oid %d) after pack(T=%d, gc=%d) on %s: %r, was %r'
                             % (name, o, T, gc, kind, short(y), short(x))))
     # loadSerial of every revision that answers some snapshot b > T for a reachable object
@@ -428,12 +475,18 @@ def judge_pack(before, after, T, gc, kind, outcome, truth, bounds, counts):
     for (o, m) in sorted(need):
         x, y = before['ser'].get((o, m)), after['ser'].get((o, m))
         if x != y and not removable_object(o):
-            bad.append((SIG_GARBAGE_WRITTEN if known_sig(o) else 'C07:load-changed',
+            bad.append((load_sig(o),
                         'loadSerial(oid %d, tid %d) after pack(T=%d, gc=%d) on %s: %r, was %r'
                         % (o, m, T, gc, kind, short(y if y is not None else 'K'), short(x))))
     # sentence 2b: every transaction after T still listed and iterable, identical records
     if post_listing(before['listing'], T) != post_listing(after['listing'], T):
-        bad.append(('C07:later-transaction-changed',
+        pb = {(x[0], o): d for x in post_listing(before['listing'], T) for o, d in x[5]}
+        pa = {(x[0], o): d for x in post_listing(after['listing'], T) for o, d in x[5]}
+        only_firstdup = (set(pb) == set(pa) and bool(firstdup) and
+                         all(o in firstdup for k, o in pb if pb[(k, o)] != pa[(k, o)]) and
+                         [x[:5] for x in post_listing(before['listing'], T)] ==
+                         [x[:5] for x in post_listing(after['listing'], T)])
+        bad.append((SIG_FIRST_DUP if only_firstdup else 'C07:later-transaction-changed',
                     'transactions after T=%d differ after pack(gc=%d) on %s' % (T, gc, kind)))
     # sentence 1: only R is removed; nothing is invented or altered
     rb, ra = rec_set(before['listing']), rec_set(after['listing'])
@@ -441,7 +494,8 @@ def judge_pack(before, after, T, gc, kind, outcome, truth, bounds, counts):
         if (m, o) not in rb:
             bad.append(('C07:record-invented', 'record (tid %d, oid %d) appears after pack' % (m, o)))
         elif rb[(m, o)] != d:
-            bad.append(('C07:record-altered', 'record (tid %d, oid %d) changed data after pack' % (m, o)))
+            bad.append((SIG_FIRST_DUP if (o in firstdup and m > T) else 'C07:record-altered',
+                        'record (tid %d, oid %d) changed data after pack' % (m, o)))
     for (m, o), d in sorted(rb.items(), key=lambda kv: kv[0]):
         if (m, o) in ra or d is None:        # tombstones (un-creation / deletion) carry no revision
             continue
@@ -459,6 +513,11 @@ def judge_pack(before, after, T, gc, kind, outcome, truth, bounds, counts):
         bad.append((SIG_REFUSED_BACKPTR,
                     'pack(T=%d, gc=%d) on %s failed with %s: a record after T points back to a revision the '
                     'pack removes' % (T, gc, kind, outcome[4:])))
+    if outcome == 'err:TypeError' and not (kind == 'demofs' and gc):
+        # only DemoStorage-with-a-base refuses gc with TypeError; elsewhere it is a crash
+        # (PackCopier._data_find: len(None) when the first of two records of the oid carries data)
+        bad.append((SIG_FIRST_DUP if firstdup else 'C07:pack-crashed',
+                    'pack(T=%d, gc=%d) on %s crashed with TypeError' % (T, gc, kind)))
     if outcome.startswith('err:Other('):
         bad.append((SIG_DEMO_ATTR if (kind == 'demofs' and 'AttributeError' in outcome) else 'C07:pack-crashed',
                     'pack(T=%d, gc=%d) on %s crashed with %s' % (T, gc, kind, outcome[10:-1])))
@@ -558,7 +617,7 @@ def run_case(case, tmp, want_model=True):
         first = before
         if want_model:
             res['lines'] += model_lines_history(before['listing'])
-            res['expect'] += [None] * (len(res['lines']) - 2) + ['sorted=1 backok=1 onerec=1', None]
+            res['expect'] += [None] * (len(res['lines']) - 2) + ['sorted=1 backok=1', None]
         if kind in FSLIKE:
             st.close()
             shutil.copy(path, path + '.orig')
@@ -573,7 +632,9 @@ def run_case(case, tmp, want_model=True):
                 res['expect'].append(('nr', T, gc))
             if kind in FSLIKE and os.path.exists(path + '.old'):
                 os.remove(path + '.old')
-            outcome = do_pack(st, T, gc)
+            outcome = do_pack(st, T, gc, case.get('tz'))
+            if case.get('tz'):
+                counts['tz:' + case['tz']] = counts.get('tz:' + case['tz'], 0) + 1
             if kind in FSLIKE and outcome == 'done':
                 outcome = 'ok' if os.path.exists(path + '.old') else 'none'
             counts['pack:%s:%s' % (kind, outcome)] = counts.get('pack:%s:%s' % (kind, outcome), 0) + 1
@@ -721,7 +782,9 @@ def compare_model(ck, case, res, mo):
                 return 'pack outcome: impl %s, model %s (%s)' % (real, got, line), nr
             continue
         if want != got:
-            return 'op %r: impl %s | model %s' % (line, want[:300], got[:300]), nr
+            k = next((i for i, (x, y) in enumerate(zip(want, got)) if x != y), min(len(want), len(got)))
+            k = max(0, k - 60)
+            return 'op %r: at char %d impl …%s | model …%s' % (line, k, want[k:k + 240], got[k:k + 240]), nr
     return None, nr
 
 
@@ -781,7 +844,9 @@ def main(argv=None):
                 for seq in seqs:
                     if kind.startswith('demo') and ck.rng.random() < 0.6:
                         continue
-                    cases.append(dict(ops=ops, kind=kind, seq=seq, drop_index=ck.rng.random() < 0.5))
+                    x = ck.rng.random()
+                    tz = 'JST-9' if x < 0.2 else ('XXX-5:30' if x < 0.3 else ('PST8' if x < 0.4 else None))
+                    cases.append(dict(ops=ops, kind=kind, seq=seq, drop_index=ck.rng.random() < 0.5, tz=tz))
     # ---- real code + oracle
     nproc = 1 if len(cases) < 50 else min(16, os.cpu_count() or 1)
     if nproc > 1:
